@@ -161,6 +161,10 @@ impl ClientError {
     { unimplemented!() }
 }
 /// `impl<E1, E2> From<connector::Error<E1, E2>> for client::Error` (client/error.rs)
+impl<E1, E2> vstd::std_specs::convert::FromSpecImpl<Error<E1, E2>> for ClientError {
+    open spec fn obeys_from_spec() -> bool { true }
+    open spec fn from_spec(e: Error<E1, E2>) -> ClientError { client_error_of_connector(e) }
+}
 impl<E1, E2> From<Error<E1, E2>> for ClientError {
     #[verifier::external_body]
     fn from(e: Error<E1, E2>) -> (r: ClientError)
@@ -168,6 +172,10 @@ impl<E1, E2> From<Error<E1, E2>> for ClientError {
     { unimplemented!() }
 }
 /// `impl From<E: std::error::Error> for Box<dyn Error>` at `ConnectionError`
+impl vstd::std_specs::convert::FromSpecImpl<ConnectionError> for BoxError {
+    open spec fn obeys_from_spec() -> bool { true }
+    open spec fn from_spec(e: ConnectionError) -> BoxError { box_of_connection_error(e) }
+}
 impl From<ConnectionError> for BoxError {
     #[verifier::external_body]
     fn from(e: ConnectionError) -> (r: BoxError)
